@@ -8,6 +8,7 @@ C04 <kind> <nvh> { vh <ndom> <dom>… <nrules> { r <prefix> <path> <rx> <nvars> 
                                                      <ndsl> {<empty 0|1> <id> <compiles 0|1>}… }… }…
            req <map c|b|h|2> <nvars> {<name> <value|!>}… <nhdrs> {<name> <value>}… ps <n> {<:name> <value>}…
            rx <n> {<id> <input> <0|1>}…  dx <n> {<id> <t|f|e|n>}…   (e = evaluation error, n = not a boolean)
+           pt <n> {<id> <pattern text>}…
     => <errorName> | panic | ok <vhostIndex|-1> <vh.rule|none> <vh.rule,…|->
 ```
 strings are percent-escaped (`%` alone = empty), `!` = unset / no regex, `<rx>` = `<id>:<compiles 0|1>`.
@@ -126,6 +127,7 @@ structure Case where
   pseudo : List (Str × Str)
   rxTab : List (Nat × Str × Bool)
   dxTab : List (Nat × Option Bool)
+  pats : List (Nat × Str) := []
 
 def caseP : P Case := do
   let n ← nat
@@ -151,7 +153,10 @@ def caseP : P Case := do
     let t ← next
     if t == "t" then pure (i, some true) else if t == "f" then pure (i, some false)
     else if t == "e" || t == "n" then pure (i, (none : Option Bool)) else failure)
-  pure ⟨cfg, vars, kind, hdrs, pseudo, tab, dtab⟩
+  lit "pt"
+  let npt ← nat
+  let pats ← rep npt (do let i ← nat; let s ← str; pure (i, s))
+  pure ⟨cfg, vars, kind, hdrs, pseudo, tab, dtab, pats⟩
 
 def lookupStr {β : Type} (l : List (Str × β)) (k : Str) : Option β :=
   match l.find? (fun kv => kv.1 = k) with
